@@ -454,6 +454,9 @@ type ecase struct {
 	Declared string `json:"declared"` // results/property: declared type of the field ("" = none)
 	Ref      string `json:"ref"`      // property: reference string
 	Other    *spec  `json:"other"`    // value stored in a second, concurrently alive instance
+	// door "declared": data objects declared in the model with an
+	// olive:dataObjectBody (JSON object text; "" = declared without a body)
+	Bodies []string `json:"bodies,omitempty"`
 }
 
 func procXML(c ecase) (string, string) {
@@ -481,6 +484,18 @@ func procXML(c ecase) (string, string) {
 		}
 		ext := fmt.Sprintf(`<bpmn:extensionElements><olive:properties><olive:property name="p" ref="%s"%s/><olive:property name="q"%s/></olive:properties><olive:taskHeaders><olive:header name="h" ref="%s"/></olive:taskHeaders></bpmn:extensionElements>`, xmlEsc(c.Ref), ty, ty, xmlEsc(c.Ref))
 		x = strings.Replace(x, fmt.Sprintf(`<bpmn:task id="%s">`, t2.ID), fmt.Sprintf(`<bpmn:task id="%s">`, t2.ID)+ext, 1)
+	}
+	if c.Door == "declared" {
+		var sb strings.Builder
+		for i, body := range c.Bodies {
+			if body == "" {
+				fmt.Fprintf(&sb, `<bpmn:dataObject id="decl_%d" name="do%d"/>`, i, i)
+				continue
+			}
+			fmt.Fprintf(&sb, `<bpmn:dataObject id="decl_%d" name="do%d"><bpmn:extensionElements><olive:dataObjectBody><![CDATA[%s]]></olive:dataObjectBody></bpmn:extensionElements></bpmn:dataObject>`, i, i, body)
+		}
+		at := strings.Index(x, "<bpmn:startEvent")
+		x = x[:at] + sb.String() + "\n" + x[at:]
 	}
 	return x, tk.ID
 }
@@ -568,6 +583,27 @@ func runEngine(c ecase) (sym, det, inconcl string) {
 		return "", ""
 	}
 	switch c.Door {
+	case "declared":
+		// every declared data object holds exactly its own body
+		items := in.P.Locator().CloneItems(data.LocatorObject)
+		for i, body := range c.Bodies {
+			name := fmt.Sprintf("decl_%d", i) // CloneItems is keyed by the data object's id
+			wantBody := map[string]any{}
+			if body != "" {
+				if err := json.Unmarshal([]byte(body), &wantBody); err != nil {
+					return "descriptor", err.Error(), ""
+				}
+			}
+			wb, _ := canon(wantBody)
+			it, ok := items[name]
+			if !ok || it == nil {
+				return "lost", fmt.Sprintf("declared data object %s is not in the locator", name), ""
+			}
+			gb, _ := canon(it.Value())
+			if !same(gb, wb) {
+				return "value", fmt.Sprintf("declared data object %s (body %q) reads %s, want %s (all bodies: %q)", name, body, describe(it.Value()), describe(wantBody), c.Bodies), ""
+			}
+		}
 	case "variables":
 		g, ty, ok := readVar("v")
 		if s, d := checkStored("WithVariables -> CloneVariables", g, ty, ok); s != "" {
@@ -640,8 +676,30 @@ func TestC16Engine(t *testing.T) {
 	}
 	refs := []string{"$base.present.leaf", "$base.absent", "$base.present.absent.deep", "$missing.x", "$base", "base.present", "$", "", "$.x", "$base.n", "$base..", "$v.a"}
 	rapid.Check(t, func(rt *rapid.T) {
-		c := ecase{V: genValue(rt, 3, false), Door: rapid.SampledFrom([]string{"variables", "results", "objects", "property"}).Draw(rt, "door"),
+		c := ecase{V: genValue(rt, 3, false), Door: rapid.SampledFrom([]string{"variables", "results", "objects", "property", "declared"}).Draw(rt, "door"),
 			Other: genValue(rt, 2, false)}
+		if c.Door == "declared" {
+			n := rapid.IntRange(1, 3).Draw(rt, "nDeclared")
+			for i := 0; i < n; i++ {
+				body := map[string]any{}
+				for _, k := range []string{"a", "b", "c"} {
+					switch rapid.IntRange(0, 4).Draw(rt, "field") {
+					case 1:
+						body[k] = rapid.IntRange(-1000, 1000).Draw(rt, "n")
+					case 2:
+						body[k] = rapid.StringMatching(`[a-zé]{0,4}`).Draw(rt, "s")
+					case 3:
+						body[k] = map[string]any{"in": rapid.Bool().Draw(rt, "b"), "l": []any{1, "x"}}
+					}
+				}
+				if len(body) == 0 && rapid.Bool().Draw(rt, "noBody") {
+					c.Bodies = append(c.Bodies, "")
+					continue
+				}
+				js, _ := json.Marshal(body)
+				c.Bodies = append(c.Bodies, string(js))
+			}
+		}
 		if c.Door == "results" || c.Door == "property" {
 			c.Declared = rapid.SampledFrom(declaredTypes).Draw(rt, "declared")
 		}
